@@ -10,7 +10,7 @@
 """
 import ast
 
-from ..core import AnalysisError, Finding, attr_chain, call_name, dominating_guards, norm, walk_no_nested
+from ..core import AnalysisError, Finding, attr_chain, call_name, canon, dominating_guards, norm, walk_no_nested
 from ..dataflow import Provenance, ReachingDefs
 
 L = "commonroad/scenario/lanelet.py"
@@ -110,8 +110,9 @@ def run(repo, res, tier):
         idvars = {}
         for n in walk_no_nested(fn):
             if isinstance(n, ast.Assign) and len(n.targets) == 1 and isinstance(n.targets[0], ast.Name):
-                idvars[n.targets[0].id] = norm(n.value)
-        good_ids = {v for v, txt in idvars.items() if txt in ("set(self.%s.keys())" % reg, "set(self.%s)" % reg, "self.%s.keys()" % reg)}
+                idvars[n.targets[0].id] = canon(n.value, rd, n, [])
+        r0 = reg.lstrip("_")
+        good_ids = {v for v, txt in idvars.items() if txt in ("set(self.%s.keys())" % r0, "set(self.%s)" % r0, "self.%s.keys()" % r0, "frozenset(self.%s)" % r0, "frozenset(self.%s.keys())" % r0, "{*self.%s}" % r0)}
         res.check("REF-CLEAN", "%s: existing-id set taken from %s" % (cfn, reg), bool(good_ids), mod, fn, "%s existing ids %s" % (cfn, sorted(idvars.items())), "the set of existing %s ids is not read from self.%s" % (kind, reg), qualname="LaneletNetwork." + cfn)
         stores = {}
         for n in walk_no_nested(fn):
@@ -128,11 +129,21 @@ def run(repo, res, tier):
                 src_attr = COMPANION.get(f, f.lstrip("_"))
                 reads_same = any(isinstance(x, ast.Attribute) and x.attr in (f, f.lstrip("_")) for x in ast.walk(v))
                 reads_key = any(isinstance(x, ast.Attribute) and x.attr in (src_attr, "_" + src_attr) for x in ast.walk(v))
-                filt = ".intersection(" in txt or " not in " in txt or " in " in txt
+                filt = ".intersection(" in txt or " not in " in txt or " in " in txt or " & " in txt
                 if uses_ids and reads_same and reads_key and filt:
                     ok = True
-                else:
-                    why = "value %s does not filter the field by the existing ids" % txt[:80]
+                    continue
+                # conditional reset: `if <key> not in ids: field = None / empty`
+                empty = (isinstance(v, ast.Constant) and v.value is None) or txt in ("[]", "set()", "list()", "{}", "frozenset()")
+                if empty:
+                    for t, pol in dominating_guards(mod, st, stop=fn):
+                        if isinstance(t, ast.Compare) and len(t.ops) == 1 and ((isinstance(t.ops[0], ast.NotIn) and pol) or (isinstance(t.ops[0], ast.In) and not pol)):
+                            la_ = t.left
+                            if isinstance(la_, ast.Attribute) and la_.attr.lstrip("_") in (f.lstrip("_"), src_attr) and isinstance(t.comparators[0], ast.Name) and t.comparators[0].id in good_ids:
+                                ok = True
+                    if ok:
+                        continue
+                why = "value %s does not filter the field by the existing ids" % txt[:80]
             res.check("REF-CLEAN", inst, ok, mod, (stores.get(f) or [fn])[0], "%s: %s.%s" % (cfn, hc, f), "after a removal %s.%s may still contain the removed id: %s" % (hc, f, why), qualname="LaneletNetwork." + cfn)
         # holders are iterated completely
         loops = [norm(n.iter) for n in walk_no_nested(fn) if isinstance(n, ast.For)]
@@ -174,16 +185,31 @@ def run(repo, res, tier):
             kept = n.func.value.id
     if kept is None:
         raise AnalysisError("create_from_lanelet_network: kept-id set not found")
-    ctor = [n for n in walk_no_nested(cut) if isinstance(n, ast.Call) and call_name(n) == "IntersectionIncomingElement"]
+    # the cut-out function together with the same-class helpers it hands the kept-id set to
+    region = [(cut, kept, rd)]
+    for c in walk_no_nested(cut):
+        if isinstance(c, ast.Call) and isinstance(c.func, ast.Attribute) and isinstance(c.func.value, ast.Name) and c.func.value.id in ("cls", "self", "LaneletNetwork"):
+            h = net.methods.get(c.func.attr)
+            if h is None:
+                continue
+            hp = [x.arg for x in h.args.args]
+            decos = [ast.unparse(d) for d in h.decorator_list]
+            hp = hp[1:] if hp and hp[0] in ("self", "cls") and "staticmethod" not in decos else hp
+            for pn, a_ in list(zip(hp, c.args)) + [(k.arg, k.value) for k in c.keywords if k.arg]:
+                if norm(a_) == kept:
+                    region.append((h, pn, ReachingDefs(h)))
+    ctor = [(n, k_, r_) for f_, k_, r_ in region for n in walk_no_nested(f_) if isinstance(n, ast.Call) and call_name(n) == "IntersectionIncomingElement"]
     if len(ctor) != 1:
-        raise AnalysisError("create_from_lanelet_network: expected one IntersectionIncomingElement(...) call")
-    for kw in ctor[0].keywords:
+        raise AnalysisError("create_from_lanelet_network: expected one IntersectionIncomingElement(...) call (found %d in %s)" % (len(ctor), [f_.name for f_, _k, _r in region]))
+    ctor0, kept_c, rd_c = ctor[0]
+    for kw in ctor0.keywords:
         if kw.arg in ("incoming_lanelets", "successors_right", "successors_straight", "successors_left"):
             vals = [kw.value]
             if isinstance(kw.value, ast.Name):
-                vals = [d.node for d in rd.defs(kw.value.id, ctor[0]) if d.node is not None]
+                vals = [d.node for d in rd_c.defs(kw.value.id, ctor0) if d.node is not None]
             ok = bool(vals) and all(
-                isinstance(v, ast.Call) and isinstance(v.func, ast.Attribute) and v.func.attr == "intersection" and len(v.args) == 1 and norm(v.args[0]) == kept and norm(v.func.value).endswith("." + kw.arg)
+                (isinstance(v, ast.Call) and isinstance(v.func, ast.Attribute) and v.func.attr == "intersection" and len(v.args) == 1 and norm(v.args[0]) == kept_c and norm(v.func.value).endswith("." + kw.arg))
+                or (isinstance(v, ast.BinOp) and isinstance(v.op, ast.BitAnd) and {norm(v.left).split(".")[-1], norm(v.right).split(".")[-1]} == {kw.arg, kept_c})
                 for v in vals
             )
             res.check("REF-CUT", "cut-out: incoming.%s = old.%s ∩ kept ids" % (kw.arg, kw.arg), ok, mod, kw.value, "create_from_lanelet_network: %s=%s" % (kw.arg, [norm(v) for v in vals]), "the copied incoming element may reference lanelets that are not in the cut-out network", qualname=qn)
@@ -197,6 +223,9 @@ def run(repo, res, tier):
         ok = bool(adds) and all(any(pol and norm(t) == "%s in %s" % (norm(a.args[0]), kept) for t, pol in dominating_guards(mod, a, stop=cut)) for a in adds)
         defs = [d.node for d in rd.defs(cr[0].id, ictor[0]) if d.node is not None]
         ok = ok and all(norm(d) in ("set()",) or ".intersection(%s)" % kept in norm(d) for d in defs)
+        for d in defs:
+            if isinstance(d, ast.SetComp) and len(d.generators) == 1 and norm(d.elt) == norm(d.generators[0].target) and norm(d.generators[0].iter).endswith(".crossings") and any(norm(c_) == "%s in %s" % (norm(d.elt), kept) for c_ in d.generators[0].ifs):
+                ok = True
     elif cr:
         ok = ".intersection(%s)" % kept in norm(cr[0])
     res.check("REF-CUT", "cut-out: crossings filtered by kept ids", ok, mod, ictor[0], "create_from_lanelet_network: crossings", "the copied intersection may reference crossing lanelets that are not in the cut-out network", qualname=qn)
@@ -245,25 +274,36 @@ def run(repo, res, tier):
     prov = Provenance(hang)
     prm = hang.args.args[1].arg
     qn = "Scenario.remove_hanging_lanelet_members"
-    appends = [n for n in walk_no_nested(hang) if isinstance(n, ast.Call) and isinstance(n.func, ast.Attribute) and n.func.attr == "append"]
-    if len(appends) < 2:
-        raise AnalysisError("remove_hanging_lanelet_members: append sites not found")
-    for a in appends:
-        guards = [t for t, pol in dominating_guards(smod, a, stop=hang) if pol]
-        subs = [x for t in guards for x in ast.walk(t) if isinstance(x, ast.BinOp) and isinstance(x.op, ast.Sub)]
-        ok = False
-        if len(subs) == 1:
-            left_roots = prov.roots(subs[0].left, a)
-            right_defs = prov.rd.defs(subs[0].right.id, a) if isinstance(subs[0].right, ast.Name) else []
-            # left derives from the lanelets being removed; right from the remaining ones
-            right_txt = " ".join(norm(d.node) for d in right_defs if d.node is not None)
-            rem = None
-            for nm in [x.id for d in right_defs if d.node is not None for x in ast.walk(d.node) if isinstance(x, ast.Name)]:
-                for d2 in prov.rd.defs(nm, a):
-                    if d2.node is not None and " not in " in norm(d2.node):
-                        rem = norm(d2.node)
-            ok = prm in left_roots and rem is not None and prm in prov.roots(subs[0].left, a)
-        res.check("REF-HANG", "hanging filter at %s" % norm(a)[:60], ok, smod, a, "remove_hanging_lanelet_members: %s" % norm(a)[:80], "signs/lights are selected for removal although a remaining lanelet still references them (or the set difference is missing)", qualname=qn)
+    # what is handed to the removal functions is selected by membership in (referenced by removed) - (referenced by
+    # remaining); the selection may be written as append loops or comprehensions, the difference hoisted or not
+    from ..flowtools import collected
+
+    hrd = prov.rd
+    subs = [x for x in ast.walk(hang) if isinstance(x, ast.BinOp) and isinstance(x.op, ast.Sub)]
+    good_subs = []
+    for sb in subs:
+        left_roots = prov.roots(sb.left, hrd.stmt_of(sb))
+        right_defs = hrd.defs(sb.right.id, hrd.stmt_of(sb)) if isinstance(sb.right, ast.Name) else []
+        rem = None
+        for nm in [x.id for d in right_defs if d.node is not None for x in ast.walk(d.node) if isinstance(x, ast.Name)]:
+            for d2 in hrd.defs(nm, hrd.stmt_of(sb)):
+                if d2.node is not None and " not in " in norm(d2.node):
+                    rem = norm(d2.node)
+        if prm in left_roots and rem is not None:
+            good_subs.append(canon(sb, hrd, hrd.stmt_of(sb), [prm]))
+    n_sel = 0
+    for fnname in ("remove_traffic_sign", "remove_traffic_light"):
+        for c in walk_no_nested(hang):
+            if isinstance(c, ast.Call) and norm(c.func) == "self." + fnname and c.args and isinstance(c.args[0], ast.Name):
+                cols, _rn = collected(smod, hang, hrd, [prm], None, result=c.args[0].id)
+                cols = [k for k in cols if k.how != "extend-iterable"]
+                for k in cols:
+                    n_sel += 1
+                    gt = [t for t, p, _n in k.guards if p]
+                    ok = any(any(gs in t or ("set(%s)" % gs) in t for gs in good_subs) and " in " in t for t in gt)
+                    res.check("REF-HANG", "hanging filter for %s(%s)" % (fnname, c.args[0].id), ok, smod, k.node, "remove_hanging_lanelet_members: %s selected under %s" % (norm(k.elem)[:50], gt), "signs/lights are selected for removal although a remaining lanelet still references them (or the set difference is missing)", qualname=qn)
+    if n_sel < 2:
+        raise AnalysisError("remove_hanging_lanelet_members: selection of hanging signs / lights not found")
     # the selected lists are handed to the id-releasing removal functions
     for fnname in ("remove_traffic_sign", "remove_traffic_light"):
         ok = any(isinstance(n, ast.Call) and norm(n.func) == "self." + fnname for n in walk_no_nested(hang))
